@@ -349,10 +349,13 @@ def clone_value(v, memo):
 
 
 class Event:
-    __slots__ = ("callee", "norm", "args", "ret", "site", "depth", "kind", "crate")
+    __slots__ = ("callee", "norm", "args", "ret", "site", "depth", "kind", "crate", "tnames")
 
-    def __init__(self, callee, norm, args, ret, site, depth, kind="call", crate=False):
+    def __init__(self, callee, norm, args, ret, site, depth, kind="call", crate=False, tnames=None):
         self.crate = crate
+        # symbolic names (root, path) of the pointees of reference arguments *at call time* (before any havoc)
+        self.tnames = tnames if tnames is not None else [
+            ((a.target.root, a.target.path) if (a is not None and a.target is not None) else None) for a in args]
         self.callee = callee
         self.norm = norm
         self.args = args
@@ -392,7 +395,7 @@ class State:
             s.frames.append(g)
         for e in self.trace:
             s.trace.append(Event(e.callee, e.norm, [clone_graph(a, memo) for a in e.args],
-                                 clone_graph(e.ret, memo), e.site, e.depth, e.kind, e.crate))
+                                 clone_graph(e.ret, memo), e.site, e.depth, e.kind, e.crate, e.tnames))
         s.extra = {k: clone_value(v, memo) for k, v in self.extra.items()}
         s.heap = {k: clone_graph(v, memo) for k, v in self.heap.items()}
         return s
@@ -762,7 +765,7 @@ class Engine:
         if m:
             w, _ = INT_TYPES[m.group(2)]
             return mk_scalar(z3.BitVecVal(int(m.group(1)), w), m.group(2))
-        m = re.fullmatch(r"([iu](?:8|16|32|64|128|size))::(MIN|MAX)", t)
+        m = re.fullmatch(r"(?:(?:core|std)::num::<impl )?([iu](?:8|16|32|64|128|size))>?::(MIN|MAX)", t)
         if m:
             w, s = INT_TYPES[m.group(1)]
             if s:
@@ -1374,6 +1377,15 @@ class Engine:
         tgt.term = tgt.target = tgt.tag = tgt.variants = tgt.fields = tgt.length = tgt.elems = tgt.vec = None
 
     def uninterpreted(self, st, frame, dest, dest_ty, ret_bb, callee, norm, args, site, havoc_mut=True):
+        # materialise the pointees of reference arguments first: events then carry object identities and the
+        # havoc below reaches memory that has not been read yet (reads after the call must not see old values)
+        for a in args:
+            ty = (a.ty or "").strip()
+            if a.target is None and a.vec is None and a.conc is None and (ty.startswith("&") or ty.startswith("*")):
+                try:
+                    self.deref(a)
+                except Unsupported:
+                    pass
         snap = [copy_node(a) for a in args]
         ret = Node(fresh_root("c"), ty=dest_ty)
         ev = Event(callee, norm, snap, ret, site, len(st.frames))
